@@ -111,6 +111,8 @@ func Generate(rng *lib.Rng, n int, p Profile, bin, home, work string) ([]*Case, 
 		var top *Top
 		if p.OrderLimit {
 			top = g.GenOrderLimitTop(i)
+		} else if p.Mixed {
+			top = g.GenMixedTop(i)
 		} else if p.Having {
 			top = g.GenHavingTop(i)
 		} else if p.ManyKeys {
